@@ -223,7 +223,10 @@ def _stats_history(a):
                 if os.path.exists(rp):
                     with open(rp, encoding='utf-8', newline='') as fh:
                         hdr, body = aggregate.parse_tsv(fh.read())
-                    got = sorted([r[0], r[1], int(r[2])] for r in body if len(r) >= 3)
+                    try:
+                        got = sorted([r[0], r[1], int(r[2])] for r in body if len(r) >= 3)
+                    except ValueError:
+                        got = [['<malformed row>'] + [r for r in body if len(r) >= 3 and not r[2].lstrip('-').isdigit()][0]]
                     if got != final['rare']:
                         problems.append({'kind': 'rare-report', 'written': got[:5], 'exact': final['rare'][:5], 'threshold': thr})
                     elif crash:
